@@ -103,6 +103,31 @@ func itoa3(i int) string {
 }
 
 func init() {
+	// a key that leaves "opening" mode while the media hook is still running, then more keys:
+	// result: 1 if a later key or resize never returned (the UI is wedged), else 0
+	register("uihook", func(a []int) []int {
+		gate := &uiGate{open: make(chan struct{})}
+		close(gate.open)
+		it := &uiItem{id: 0, gate: gate, links: []string{"http://dead.invalid/l"}}
+		s := ui.NewState(60, 20, func(string) {})
+		s.VerifOpen(it)
+		for _, k := range a {
+			s.Update(byte(k))
+		}
+		time.Sleep(700 * time.Millisecond) // the hook (300 ms) has finished by now
+		done := make(chan struct{})
+		go func() {
+			s.Update('j')
+			s.SetWidthHeight(61, 21)
+			close(done)
+		}()
+		select {
+		case <-done:
+			return []int{0, 0, 0, 1}
+		case <-time.After(3 * time.Second):
+			return []int{0, 0, 1, 1}
+		}
+	})
 	// args: seed, nkeys, keys... ; a thread of 6 ancestors and 9 replies whose loaders take 0-3 ms; every key is
 	// delivered by its own goroutine (as main does), a resize poller runs every millisecond.
 	// result: frames emitted while nobody held the lock, overlapping output calls, keys never processed, frames
